@@ -53,7 +53,24 @@ theorem dispatcher_same_callable_twice (ty l v : Nat) (f g : Nat → Bool) (hf :
     ddispatch (drun [⟨ty, l, f⟩, ⟨ty, l, g⟩]) ty v = [(0, l)] := by
   simp [drun, dlisten, dinit, ddispatch, List.filter, hf, hg]
 
+/-- **Listeners that raise do not take the message away from the others**: whatever subset of
+    the calls raises, every subscription whose type and filter accept the message is still
+    called exactly once, and no other. -/
+theorem dispatcher_raising_listener_isolated (raises : Nat → Nat → Bool) (subs : List Sub) (ty v : Nat) :
+    ((dcalls raises (drun subs) ty v).map fun c => c.1).Nodup ∧
+    ∀ i, i ∈ ((dcalls raises (drun subs) ty v).map fun c => c.1) ↔
+      ∃ s, subs[i]? = some s ∧ s.ty = ty ∧ s.flt v = true := by
+  have h : ((dcalls raises (drun subs) ty v).map fun c => c.1) = called subs ty v := by
+    simp [dcalls, called, List.map_map, Function.comp_def]
+  rw [h]
+  exact dispatcher_exactly_once subs ty v
+
 /-! ## Non-vacuity -/
+
+/-- the first subscriber raises on the message: the second and third are still called -/
+example : dcalls (fun sid _ => sid == 0) (drun [⟨1, 7, fun _ => true⟩, ⟨1, 8, fun _ => true⟩,
+      ⟨1, 9, fun _ => true⟩]) 1 4 = [(0, 7, true), (1, 8, false), (2, 9, false)] := by decide
+
 
 /-- one callable (7) subscribed twice for type 1 with disjoint filters, another callable (8)
     unfiltered, a listener for another type -/
